@@ -69,7 +69,12 @@ def run_history(hist, codes):
 def main():
     req = json.load(sys.stdin)
     codes = default_trace_codes()
-    json.dump({'results': [run_history(h, codes) for h in req['histories']]}, sys.stdout)
+    tables = req.get('tables')
+    out = []
+    for i, h in enumerate(req['histories']):
+        t = codes if not tables or tables[i] is None else {int(k): v for k, v in tables[i]}
+        out.append(run_history(h, t))
+    json.dump({'results': out}, sys.stdout)
 
 
 if __name__ == '__main__':
